@@ -304,6 +304,16 @@ def r7_call_next_passes_arguments_intact(ctx):
     law_each_argument_once(ctx)
 
 
+def _more(name):
+    def run(ctx):
+        from . import more
+
+        getattr(more, name)(ctx)
+
+    run.__name__ = name
+    return run
+
+
 RULES = [
     ("C07.R7", "P1", r7_call_next_passes_arguments_intact, "call_next invokes the next method with exactly the arguments written"),
     ("C07.R1", "P1", r1_one_code_object, "one code object on both sides"),
@@ -312,4 +322,7 @@ RULES = [
     ("C07.R4", "P1", r4_whole_ranks, "whole ranks"),
     ("C07.R5", "P1", r5_next_keys_like_call_next, "f.next keys like call_next"),
     ("C07.R6", "P1", r6_ranks_partition, "ranks partition the candidates"),
+    ("C07.R8", "P1", _more("recompiler_globals_are_unique"), "the code object that identifies the caller has a unique global name"),
+    ("C07.R9", "P1", _more("applicable_set_from_final_candidates"), "the applicable-code set comes from the final candidates"),
+    ("C07.R10", "P1", _more("sort_key_refines_dominance"), "the sort key refines dominance (interpreted)"),
 ]
